@@ -24,7 +24,9 @@ Inductive shape :=
 | SLoopIdx      (* [if n.F != nil {] for i := 0; i < len(n.F); i++ { Walk(v, n.F[i]) } [}] *)
 | SLoopIdxAddr  (* same with Walk(v, &n.F[i]) *)
 | SLoopRange    (* for _, item := range n.F { Walk(v, item) } *)
-| SLoopWrap.    (* for _, item := range n.F { if item.A != nil {Walk(v, item.A)} else if ... else {Walk(v, &item.C)} } *)
+| SLoopWrap     (* for _, item := range n.F { if item.A != nil {Walk(v, item.A)} else if ... else {Walk(v, &item.C)} }
+                   : item is a COPY of the element, &item.C is not an address inside the tree *)
+| SLoopWrapAddr. (* for i := range n.F { item := &n.F[i]; <the same chain> } *)
 
 Record fdesc := mkf { f_id : field; f_kind : kind; f_target : option ty }.
 
@@ -55,6 +57,7 @@ Definition mode_of (s : shape) (k : kind) : mode :=
   | SLoopRange, KListS => MByValue
   | SLoopIdxAddr, KListS => MNormal
   | SLoopWrap, KListW => MNormal
+  | SLoopWrapAddr, KListW => MNormal
   | _, _ => MBad
   end.
 
